@@ -75,6 +75,46 @@ def rebuild_content_id(n: Any) -> str:
         LZ.AwareASTNode._nodes = saved
 
 
+_CID_CACHE: dict[Any, str] = {}
+
+
+def structure(n: Any) -> tuple:
+    """Class, init field values and child structures of a node (what an equal tree is built from)."""
+    parts: list[Any] = [type(n).__name__]
+    for f in dataclasses.fields(n):
+        if not f.init or f.name in ("id", "original_id", "id_collision_with", "content_id", "origin"):
+            continue
+        v = getattr(n, f.name)
+        if isinstance(v, LZ.AwareASTNode):
+            parts.append((f.name, structure(v)))
+        elif isinstance(v, (tuple, list)):
+            parts.append((f.name, type(v).__name__, tuple(structure(c) if isinstance(c, LZ.AwareASTNode) else c for c in v)))
+        else:
+            parts.append((f.name, v))
+    return tuple(parts)
+
+
+def expected_cid(n: Any) -> str:
+    """content_id of an independently built equal tree.  content_id is a function of the structure
+    only, so the result of one real rebuild (in an emptied registry) is memoised per structure."""
+    key = structure(n)
+    hit = _CID_CACHE.get(key)
+    if hit is not None:
+        return hit
+    saved = LZ.AwareASTNode._nodes
+    LZ.AwareASTNode._nodes = weakref.WeakValueDictionary()
+    try:
+        twin = _rebuild(n)
+        stack = [twin]
+        while stack:
+            t = stack.pop()
+            _CID_CACHE[structure(t)] = t.content_id
+            stack.extend(c for c, _f, _i in _kids(t))
+    finally:
+        LZ.AwareASTNode._nodes = saved
+    return _CID_CACHE[key]
+
+
 def _rebuild(n: Any) -> Any:
     kw: dict[str, Any] = {}
     for f in dataclasses.fields(n):
@@ -141,17 +181,15 @@ def check_invariant(handles: list[Any]) -> tuple[str, dict[str, Any]] | None:
         if n.parent is not None:
             continue
         try:
-            want = rebuild_content_id(n)
+            expected_cid(n)  # fills the cache for every sub-structure of n
         except Exception as ex:  # noqa: BLE001
             return "__rebuild_failed__", {"error": f"{type(ex).__name__}: {ex}"[:200]}
-        if n.content_id != want:
-            return "content_id-stale", {"root": f"{type(n).__name__}<{n.id[:6]}>"}
         ok_x = n.calculate_xpath()
         stack = [(n, [], f"/@root[0]{type(n).__name__}")]
         while stack:
             m, chain, xp = stack.pop()
-            if m is not n and m.content_id != rebuild_content_id(m):
-                return "content_id-stale", {"node": f"{type(m).__name__}<{m.id[:6]}>"}
+            if m.content_id != expected_cid(m):
+                return "content_id-stale", {"node": f"{type(m).__name__}<{m.id[:6]}>", "depth": len(chain)}
             got = list(m.ancestors())
             if len(got) != len(chain) or any(a is not b for a, b in zip(got, reversed(chain))):
                 return "ancestors-disagree-with-structure", {"node": type(m).__name__}
@@ -160,8 +198,8 @@ def check_invariant(handles: list[Any]) -> tuple[str, dict[str, Any]] | None:
             for a in chain:
                 if not a.is_ancestor(m):
                     return "is_ancestor-disagrees-with-structure", {"node": type(m).__name__}
-            if m.is_ancestor(n) and m is not n and False:
-                return "is_ancestor-disagrees-with-structure", {}
+            if chain and m.is_ancestor(chain[0]):
+                return "is_ancestor-disagrees-with-structure", {"node": type(m).__name__, "claims_to_be_ancestor_of": "root"}
             if ok_x is not True or m.xpath != xp:
                 return "calculated-xpath-disagrees-with-structure", {"node": type(m).__name__, "got": m.xpath, "expected": xp}
             for c, fname, idx in _kids(m):
@@ -233,7 +271,7 @@ def _visitors():
 
 NULLARY = ["new-leaf-1", "new-leaf-9"]
 UNARY = [
-    "wrap-tuple", "wrap-optional", "wrap-required", "wrap-list", "attach", "detach", "detach_self", "replace-property", "replace-bad-key", "replace-forbidden-key",
+    "wrap-tuple", "wrap-optional", "wrap-required", "wrap-list", "attach", "detach", "detach_self", "replace-property", "replace-noop", "replace-bad-key", "replace-forbidden-key",
     "replace_with-None", "duplicate", "duplicate-detached", "transform-inc", "transform-remove-even", "transform-raises", "transformer-inc", "transformer-remove", "transformer-fresh",
 ]
 BINARY = ["wrap-pair", "replace_with", "replace-child"]
@@ -274,6 +312,8 @@ def apply_op(op: str, r: Any, a: Any) -> Any:
         if isinstance(r, LZ.LOpt):
             return r.replace(one=None)
         return r.replace(origin=o)
+    if op == "replace-noop":
+        return r.replace(origin=r.origin)
     if op == "replace-bad-key":
         return r.replace(no_such_field=1)
     if op == "replace-forbidden-key":
@@ -320,14 +360,21 @@ def describe_node(n: Any, handles: list[Any]) -> str:
     return "?"
 
 
-def make_harness(K: int, which: str, first_ops: list[str] | None = None):
+STALE_LATER = ["attach", "detach", "replace_with-None", "replace-property"]
+STALE_LATER_QUICK = ["attach", "detach", "replace_with-None"]
+
+
+THIRD_OPS = ["attach", "detach", "detach_self", "replace_with-None", "replace-property", "replace-noop", "duplicate", "transform-remove-even", "transformer-inc"]
+
+
+def make_harness(K: int, which: str, first_ops: list[str] | None = None, later_ops: list[str] | None = None, forest: int | None = None, first_recv: int | None = None, last_ops: list[str] | None = None):
     """which: "C18" (fail on invariant violations) or "C19" (fail on frame violations)."""
 
     def harness(e):
         from models.zoo import node_at
 
         LZ.lreset()
-        fno = e.choice(len(FORESTS), "forest")
+        fno = forest if forest is not None else e.choice(len(FORESTS), "forest")
         recipes, designated = FORESTS[fno]
         roots = [LZ.lbuild(r) for r in recipes]
         handles: list[Any] = []
@@ -337,11 +384,18 @@ def make_harness(K: int, which: str, first_ops: list[str] | None = None):
         history: list[str] = []
         scenario: dict[str, Any] = {"forest": [LZ.ldescribe(r) for r in recipes], "handles": "h0.. = designated nodes of the forest in pre-order, then results", "history": history}
         for step in range(K):
-            allowed = first_ops if (step == 0 and first_ops) else NULLARY + UNARY + BINARY
+            allowed = first_ops if (step == 0 and first_ops) else (later_ops or NULLARY + UNARY + BINARY)
+            if last_ops and step == K - 1 and step >= 2:
+                allowed = last_ops
             op = e.pick(allowed, f"op{step}")
             r = a = None
             if op not in NULLARY:
-                r = handles[e.choice(len(handles), f"recv{step}")]
+                if step == 0 and first_recv is not None:
+                    if first_recv >= len(handles):
+                        e.assume(False)
+                    r = handles[first_recv]
+                else:
+                    r = handles[e.choice(len(handles), f"recv{step}")]
             if op in BINARY:
                 a = handles[e.choice(len(handles), f"arg{step}")]
                 if a is r:
